@@ -108,7 +108,12 @@ fn date(rng: &mut Rng) -> String {
 fn time(rng: &mut Rng) -> String {
     let base = format!("{:02}:{:02}:{:02}", rng.below(24), rng.below(60), rng.below(60));
     match rng.below(3) {
-        0 => format!("{base}.{}", 1 + rng.below(999999)),
+        0 => {
+            // fractions of every length: the parser keeps nine digits and drops the rest
+            let n = *rng.pick(&[1usize, 2, 3, 5, 6, 8, 9, 10, 11, 14, 19]);
+            let digits: String = (0..n).map(|_| char::from(b'0' + rng.below(10) as u8)).collect();
+            format!("{base}.{digits}")
+        }
         _ => base,
     }
 }
